@@ -175,9 +175,16 @@ def get_facts(all_targets=False, repo=REPO, force=False):
         extract_s = 0.0
         if force or not os.path.exists(ok):
             # keep only the most recent fact sets (disk)
-            olds = sorted(glob.glob(os.path.join(CACHE, "facts", "*")), key=lambda p: os.stat(p).st_mtime)
+            # (other processes prune concurrently: a directory may vanish between the listing and the stat)
+            def _mtime(p):
+                try:
+                    return os.stat(p).st_mtime
+                except OSError:
+                    return 0.0
+            olds = sorted(glob.glob(os.path.join(CACHE, "facts", "*")), key=_mtime)
             for old in olds[:-12]:
-                if time.time() - os.stat(old).st_mtime > 1800:
+                m = _mtime(old)
+                if m and time.time() - m > 1800:
                     shutil.rmtree(old, ignore_errors=True)
             extract_s = _extract(repo, facts_dir, all_targets)
             # the tree must not have changed while we extracted
